@@ -460,7 +460,19 @@ func (e *kvElection) becomeLeader(token string, rev uint64) {
 	}
 }
 
+// stopped reports whether Stop/StopWithContext has run and Start has not run since.
+func (e *kvElection) stopped() bool {
+	s, _ := e.state.Load().(string)
+	return s == StateStopped
+}
+
 func (e *kvElection) attemptPriorityTakeover(payloadBytes []byte) error {
+	// An acquisition whose Create was still in flight when the election was stopped
+	// must not go on to read and replace the current leader's record.
+	if e.stopped() {
+		return ErrAlreadyStopped
+	}
+
 	entry, err := e.kv.Get(e.key)
 	if err != nil {
 		return err
@@ -480,6 +492,10 @@ func (e *kvElection) attemptPriorityTakeover(payloadBytes []byte) error {
 			e.revision.Store(entry.Revision())
 		}
 		return fmt.Errorf("current leader has equal or higher priority: %d >= %d", currentPayload.Priority, e.cfg.Priority)
+	}
+
+	if e.stopped() {
+		return ErrAlreadyStopped
 	}
 
 	newRev, err := e.kv.Update(e.key, payloadBytes, entry.Revision())
